@@ -143,7 +143,7 @@ def run_tlc(module, cfg, workers=12, timeout=3600, extra_args=(), env_extra=None
     n_case = 0
     with open(tmp_out, "rb") as fh, gzip.open(out_p, "wb", compresslevel=1) as gz:
         for raw in fh:
-            if raw.startswith(b'"CASE ') or raw.startswith(b'"REPLAY ') or raw.startswith(b'"TRACE '):
+            if raw[:1] == b'"' and raw[1:9].split(b" ")[0] in (b"CASE", b"REPLAY", b"TRACE", b"VERSIONS", b"DISK"):
                 gz.write(raw)
                 n_case += 1
                 continue
